@@ -446,7 +446,14 @@ func c16case(c *wk.Ctx, idx int, r *rand.Rand, seq []c16item, variant int) {
 	}
 	var reconnects int32
 	var rmu sync.Mutex
-	theHooks.start(rand.New(rand.NewSource(r.Int63())), map[string]int{"recv.dispatch": 200, "ack.before": 200}, func(name string, arg int64) {
+	hookDelays := map[string]int{"recv.dispatch": 200, "ack.before": 200}
+	if variant%6 == 5 {
+		// an application that is slow to pick up its answers: every caller is held a quarter of a second between its
+		// write and its wait — "requests issued afterwards still complete" does not depend on the caller's speed
+		hookDelays["call.sent"] = hookAlways + 250000
+		c.Count("variant.slow_callers", 1)
+	}
+	theHooks.start(rand.New(rand.NewSource(r.Int63())), hookDelays, func(name string, arg int64) {
 		if name == "reconnect.done" {
 			rmu.Lock()
 			reconnects++
